@@ -1041,3 +1041,67 @@ Proof.
   split; [exact H0|]. split; [exact H2|]. unfold query_base, base_url, snake_name. rewrite Hb.
   rewrite <- !app_assoc. reflexivity.
 Qed.
+
+(* ======================= several entities in one file ===================================================== *)
+Lemma convert_all_accepts : forall es, Forall quantified es ->
+  exists l, Forall2 (fun e cs => exists fl, cs = expand_with e fl) es l /\ convert_all es = Ok (concat l).
+Proof.
+  induction 1 as [|e es Q _ [l [HF Hc]]].
+  - exists []. split; [constructor|reflexivity].
+  - destruct (convert_accepts e Q) as [fl He]. exists (expand_with e fl :: l). split.
+    + constructor; [now exists fl|exact HF].
+    + cbn [convert_all concat]. now rewrite He, Hc.
+Qed.
+
+Lemma file_scopes_concat : forall es l f (sp : entity -> list bytes),
+  Forall2 (fun e cs => exists fl, cs = expand_with e fl) es l ->
+  (forall e fl, file_scope f (expand_with e fl) = sp e) ->
+  file_scope f (concat l) = flat_map sp es.
+Proof.
+  intros es l f sp HF Hsp. induction HF as [|e cs es l [fl ->] _ IH]; [reflexivity|].
+  cbn [concat flat_map]. now rewrite file_scope_app, Hsp, IH.
+Qed.
+
+Lemma inner_scopes_concat : forall es l,
+  Forall2 (fun e cs => exists fl, cs = expand_with e fl) es l ->
+  Forall (fun e => quantified e /\ reserved_free e = true) es ->
+  all_nodup (inner_scopes (concat l)).
+Proof.
+  intros es l HF. induction HF as [|e cs es l [fl ->] _ IH]; intros Hall; [constructor|].
+  inversion Hall as [|? ? [Q Hr] Hrest]; subst. cbn [concat]. rewrite inner_scopes_app. apply all_nodup_app; [|now apply IH].
+  unfold expand_with. rewrite !inner_scopes_app, !inner_scopes_flat_map.
+  apply all_nodup_app; [now apply inner_head|].
+  apply all_nodup_app; [now apply inner_query|].
+  apply all_nodup_app; [apply all_nodup_flat_map; intros c Hc; now apply inner_command|].
+  apply all_nodup_app; [apply inner_publish|].
+  apply all_nodup_app; [apply all_nodup_flat_map; intros s Hs; now apply inner_summary|].
+  apply (inner_schemas e _ Q Hr). auto.
+Qed.
+
+Theorem file_acceptance : forall es, file_quantifier es = true -> exists cs, compile_file es = Ok cs.
+Proof.
+  intros es H. unfold file_quantifier in H.
+  repeat match type of H with
+         | (_ && _) = true => apply andb_true_iff in H; let H' := fresh "F" in destruct H as [H H']
+         end.
+  assert (Hall : Forall (fun e => quantified e /\ reserved_free e = true) es).
+  { apply Forall_forall. intros e He. rewrite forallb_forall in H. specialize (H e He).
+    apply andb_true_iff in H. destruct H as [H1 H2]. split; [now apply quantified_of|exact H2]. }
+  assert (HQ : Forall quantified es) by (eapply Forall_impl; [|exact Hall]; intros e [Q _]; exact Q).
+  destruct (convert_all_accepts es HQ) as [l [HF Hc]]. exists (concat l).
+  unfold compile_file.
+  assert (Hst : existsb (fun e => is_nil (e_status e)) es = false).
+  { destruct (existsb (fun e => is_nil (e_status e)) es) eqn:E; [|reflexivity]. apply existsb_exists in E.
+    destruct E as [e [He Hn]]. rewrite Forall_forall in HQ. pose proof (q_status_ne e (HQ e He)) as Hne.
+    destruct (e_status e); [congruence|discriminate]. }
+  rewrite Hst, Hc.
+  assert (Hl : link_ok (concat l) = true).
+  { unfold link_ok, scopes. apply forallb_forall. intros sc Hin. apply nodup_bytes_NoDup.
+    apply in_app_or in Hin. destruct Hin as [Hin|Hin].
+    - destruct Hin as [<-|[<-|[<-|[]]]].
+      + rewrite (file_scopes_concat es l 0 sp_main_scope HF main_scope_eq). now apply nodup_bytes_NoDup.
+      + rewrite (file_scopes_concat es l 1 sp_service_scope HF service_scope_eq). now apply nodup_bytes_NoDup.
+      + rewrite (file_scopes_concat es l 2 sp_topic_scope HF topic_scope_eq). now apply nodup_bytes_NoDup.
+    - pose proof (inner_scopes_concat es l HF Hall) as A. unfold all_nodup in A. rewrite Forall_forall in A. now apply A. }
+  now rewrite Hl.
+Qed.
